@@ -62,6 +62,9 @@ struct NodeState {
 struct Shared {
     spec: Mutex<ClusterSpec>,
     cluster_id: u8,
+    /// never accepted from: holds 127.0.<cluster_id>.250:<port> for the whole lifetime of the cluster,
+    /// so that the cluster id stays ours also while nodes are stopped (`stop_node(0)`) or being torn down
+    _reservation: std::net::TcpListener,
     scripts: Mutex<Scripts>,
     trace: Mutex<Vec<TraceEvent>>,
     t0: Instant,
@@ -90,7 +93,7 @@ impl MockCluster {
     /// Binds the listeners of every node and starts serving. With `spec.cluster_id == None` a free
     /// third address octet is searched (so concurrent clusters, also of other processes, do not collide).
     pub async fn start(spec: ClusterSpec) -> std::io::Result<MockCluster> {
-        assert!(!spec.nodes.is_empty() && spec.nodes.len() < 250, "1..249 nodes");
+        assert!(!spec.nodes.is_empty() && spec.nodes.len() < 249, "1..248 nodes (address .250 is the reservation)");
         let candidates: Vec<u8> = match spec.cluster_id {
             Some(c) => vec![c],
             None => {
@@ -101,11 +104,23 @@ impl MockCluster {
         };
         let mut last_err = std::io::Error::other("no cluster id candidates");
         for cid in candidates {
+            // the reservation comes first: whoever holds it owns the cluster id
+            let reservation = match std::net::TcpListener::bind(SocketAddr::new(
+                IpAddr::V4(std::net::Ipv4Addr::new(127, 0, cid, 250)),
+                spec.options.port,
+            )) {
+                Ok(l) => l,
+                Err(e) => {
+                    last_err = e;
+                    continue;
+                }
+            };
             match Self::try_bind_all(&spec, cid).await {
                 Ok(listeners) => {
                     let sh = Arc::new(Shared {
                         spec: Mutex::new(spec.clone()),
                         cluster_id: cid,
+                        _reservation: reservation,
                         scripts: Mutex::new(Scripts::default()),
                         trace: Mutex::new(Vec::new()),
                         t0: Instant::now(),
